@@ -20,7 +20,7 @@ ASSUMPTIONS = ["term model: bare term = case-folded member of the tag's schema p
                "short-form prefix (written from the property text)",
                "composite semantics are judged only through OR/AND algebra, reorder-invariance, repeatability, non-mutation"]
 MIN_MONITOR_EVALS = {"term-model": 1500, "or-is-disjunction": 2000, "and-implies-both": 2000, "and-symmetric": 2000,
-                     "and-associative": 1000, "and-regrouping": 500, "group-form-model": 2000, "and-needs-distinct-tags": 100, "reorder-invariant": 2000,
+                     "and-associative": 1000, "and-regrouping": 500, "group-form-model": 2000, "or-symmetric-in-context": 2000, "and-needs-distinct-tags": 100, "reorder-invariant": 2000,
                      "repeatable-nonmutating": 2000, "compile-or-valueerror": 2000, "unbalanced-rejected": 500,
                      "batch-agrees": 200}
 
@@ -276,6 +276,29 @@ def check_case(case, rec):
         rec.mon("and-associative")
         if l != r:
             rec.violation("'(A && B) && C' differs from 'A && (B && C)'", dict(text=case["text"], a=a, b=b, c=c))
+    # 'A || B' is 'B || A' wherever it stands: under &&, inside [ ] and { }, with plain and with negated operands
+    simple0 = [render_term(*t) for t in case["terms"]]
+    if len(simple0) >= 2:
+        for _ in range(8):
+            x, y, z = (rng.choice(simple0) for _ in range(3))
+            if rng.random() < 0.5:
+                x, y = f"~{x}", f"~{y}"
+            elif rng.random() < 0.3:
+                x = f"~{x}"
+            ctx = rng.choice(["({0} || {1}) && {2}", "[{0} || {1}]", "{{{0} || {1}}}", "{2} && ({0} || {1})",
+                              "[({0} || {1}) && {2}]"])
+            qa, qb = ctx.format(x, y, z), ctx.format(y, x, z)
+            try:
+                ra, rb = run(qa), run(qb)
+            except ValueError:
+                continue
+            except Exception as ex:  # noqa
+                rec.violation(f"search raised {type(ex).__name__}", dict(text=case["text"], query=qa))
+                continue
+            rec.mon("or-symmetric-in-context")
+            if ra != rb:
+                rec.violation("swapping the operands of '||' inside a larger query changes the answer",
+                              dict(text=case["text"], a=qa, b=qb))
     # regrouping: every parenthesisation (and order) of t1 && t2 && t3 && t4 gives the same answer
     simple = [render_term(*t) for t in case["terms"]]
     if len(simple) >= 2:
